@@ -2,8 +2,9 @@ import FiberModel.C01.Main
 import FiberModel.C01.Known
 /-
 C01 — property theorems (only). Helper lemmas: Lemmas.lean (sorted lists, buildTree, cursor),
-Sim.lean (tree/cursor run = stack scan), Corr.lean (stack scan = specification), Build.lean
-(invariants of register/addRoute), Main.lean (assembly).
+Sim.lean (a tree/cursor run the instrumentation lets through = scan of the method stacks by registration
+index), Corr.lean (that scan = specification), Build.lean (invariants of register/addRoute incl. the
+ghost registration indices), Main.lean (assembly).
 
 Reading guide
   `E : Env π α`     the single-route matcher `E.M` (abstract: any function), the request hash `E.pkey`,
@@ -76,6 +77,37 @@ theorem dispatch_refines_linear (E : Env π α) (regs : List (Reg α)) (hwf : WF
     dispatch E regs m p = .ok (linear E regs m p) :=
   dispatchS_refines_linear E true regs hwf hloc hno m p
 
+/-- **restart_pass_refines_linear.** The routing pass `c.RestartRouting()` performs — `indexRoute = -1`,
+then `next` with the request's *current* method and path and the `matched` flag accumulated so far — is
+the registration-order scan from the first registration with that method, path and flag (override-free
+handlers; `dispatch_refines_linear` is the instance `matched = false` of a fresh request). The hand-off
+around it (the value `RestartRouting` returns becomes the handler's return value) is not modelled. -/
+theorem restart_pass_refines_linear (E : Env π α) (regs : List (Reg α)) (hwf : WF regs)
+    (hloc : LocalR E regs) (hno : NoOverride regs) (m : Nat) (p : π) (matched : Bool) :
+    next E (build true regs) false (build true regs).fuel m p 0 matched =
+      .ok (linearFrom E regs regs m p matched) := by
+  have heq := next_noOv E (build true regs) (InvS.build true regs) (handlersNoOv_build true regs hno)
+    (build true regs).fuel m p 0 matched
+  cases h : next E (build true regs) true (build true regs).fuel m p 0 matched with
+  | ok o =>
+    have := passS_linear E true regs hwf hloc m p matched o h
+    rw [← heq, h, this]
+  | error k =>
+    exfalso
+    rw [heq] at h
+    obtain ⟨o, ho⟩ := next_false_ok E (build true regs) (build true regs).fuel m p 0 matched
+    rw [ho] at h
+    cases h
+
+/-- the same pass with overriding handlers, outside the two recorded situations (stated on the
+instrumented run of the pass itself) -/
+theorem restart_pass_partial (E : Env π α) (regs : List (Reg α)) (hwf : WF regs)
+    (hloc : LocalR E regs) (m : Nat) (p : π) (matched : Bool) (o : Obs)
+    (hK : next E (build true regs) true (build true regs).fuel m p 0 matched = .ok o) :
+    next E (build true regs) false (build true regs).fuel m p 0 matched =
+      .ok (linearFrom E regs regs m p matched) := by
+  rw [next_chk E (build true regs) _ m p 0 matched o hK, passS_linear E true regs hwf hloc m p matched o hK]
+
 /-! ## 3. Overrides -/
 
 /- Full statement (NOT provable for the code as it is — see the two witnesses below):
@@ -84,19 +116,25 @@ theorem dispatch_refines_linear (E : Env π α) (regs : List (Reg α)) (hwf : WF
        dispatch E regs m p = .ok (linear E regs m p)
 
    i.e. also when handlers call `c.Path(x)` / `c.Method(x)` before `c.Next()`, the rest of the chain
-   is the later-registered routes matching the new path and method. -/
+   is the later-registered routes matching the new path and method — without the hypotheses
+   `hK1`/`hK2` of the theorem below. -/
 
 /-- the instrumentation only aborts: a run it lets through is the plain model's run -/
 theorem dispatchK_sound (E : Env π α) (regs : List (Reg α)) (m : Nat) (p : π) (o : Obs)
     (h : dispatchK E regs m p = .ok o) : dispatch E regs m p = .ok o :=
   next_chk E (build true regs) _ m p 0 false o h
 
-/-- **dispatch_after_override_partial.** Unless the run reaches one of the two recorded situations —
-K1: a handler effectively changes the method; K2: `Next` runs into handlers merged from a later
-identical registration after the route stopped matching — the dispatcher equals the linear scan for
-*every* table and request, including every `c.Path(override)` (the cursor is re-derived from the
-current route's position in the bucket of the new path) and method overrides that do not change
-the method. -/
+/-- **dispatch_after_override_partial.** For *every* table and request — including every
+`c.Path(override)` (cursor re-derived from the current route's position in the bucket of the new path)
+and every `c.Method(override)` (inside a `Use` route the cursor is re-derived behind the new method's
+copy of the middleware; elsewhere it is carried over) — the dispatcher equals the linear scan, unless
+the run reaches one of the recorded situations:
+K1: after an effective method override (or a path override while the method differs from the route's)
+the cursor is not behind exactly the candidates registered up to the current route (`misaligned`);
+K2: `Next` runs into handlers merged from a later identical registration after the route stopped
+matching, or the new method's stack holds a route that merged a later registration into an earlier
+position (`straddles`). Method overrides whose cursor is right — e.g. every override middleware
+registered with `Use` on un-merged stacks, wherever it is registered — are inside the theorem. -/
 theorem dispatch_after_override_partial (E : Env π α) (regs : List (Reg α)) (hwf : WF regs)
     (hloc : LocalR E regs) (m : Nat) (p : π)
     (hK1 : Known.K1reach E regs m p = false) (hK2 : Known.K2reach E regs m p = false) :
@@ -346,6 +384,11 @@ example : Sorted ((build true regs1).stack 0) := (InvS.build true regs1).sorted 
 /-- `route_independence`: "/xyz" does not match "/abc" -/
 example : (lit [0] "/xyz" [h 6 .stop]).matches E (b "/abc") = false := by decide
 
+/-- `restart_pass_refines_linear` with an inherited `matched = true`: a DELETE pass over `regs1` that
+would answer 405 on a fresh request answers 404 when an endpoint had matched before the restart -/
+example : next E (build true regs1) false (build true regs1).fuel 4 (b "/abc") 0 true =
+    .ok { trace := [2], fin := .notFound } := by decide
+
 /-- a path override handled correctly after F2: `Use` rewrites /old/a → /new, GET /new is served -/
 def regs2 : List (Reg Bytes) :=
   [lit [0] "/old/a" [h 1 .next], useRoot [h 2 (.setPath (b "/new"))], lit [0] "/old/a" [h 3 .stop],
@@ -354,26 +397,35 @@ def regs2 : List (Reg Bytes) :=
 example : dispatch E regs2 0 (b "/old/a") = .ok { trace := [1, 2, 4], fin := .stop } := by decide
 example : Known.K1reach E regs2 0 (b "/old/a") = false ∧ Known.K2reach E regs2 0 (b "/old/a") = false := by decide
 
-/-- **K1 witness**: GET /abc, then a `Use` that turns the request into POST, then POST /abc.
-The numeric cursor (2) is carried into the POST tree `[Use, POST /abc]`, where it points past
-POST /abc: the real dispatcher (and the model) answer 404 after handlers 1, 2; the property wants
-handler 3. -/
-def regsK1 : List (Reg Bytes) :=
+/-- The former K1 witness, repaired by `syncIndexRouteMethod` (F3): GET /abc, then a `Use` that turns
+the request into POST, then POST /abc. The cursor is moved behind the POST tree's copy of the `Use`
+route, POST /abc runs; the run is inside the theorem (no region reached). -/
+def regsF3 : List (Reg Bytes) :=
   [lit [0] "/abc" [h 1 .next], useRoot [h 2 (.setMethod 2)], lit [2] "/abc" [h 3 .stop]]
 
-theorem dispatch_after_override_witness_K1 :
-    ¬ (dispatch E regsK1 0 (b "/abc") = .ok (linear E regsK1 0 (b "/abc"))) := by decide
+example : dispatch E regsF3 0 (b "/abc") = .ok { trace := [1, 2, 3], fin := .stop } := by decide
+example : linear E regsF3 0 (b "/abc") = { trace := [1, 2, 3], fin := .stop } := by decide
+example : Known.K1reach E regsF3 0 (b "/abc") = false ∧ Known.K2reach E regsF3 0 (b "/abc") = false := by decide
 
-example : Known.K1 E regsK1 0 (b "/abc") = true := by decide
-
-/-- an aligned method override (override middleware registered first) reaches K1's situation but is
-not suppressed: the model meets the property there -/
+/-- the common aligned case (override middleware registered first, POST → PUT) is inside the theorem too -/
 def regsK1ok : List (Reg Bytes) :=
-  [useRoot [h 1 (.setMethod 2)], lit [0] "/abc" [h 2 .stop], lit [2] "/abc" [h 3 .stop]]
-example : Known.K1reach E regsK1ok 0 (b "/abc") = true ∧ Known.K1 E regsK1ok 0 (b "/abc") = false := by decide
-example : dispatch E regsK1ok 0 (b "/abc") = .ok { trace := [1, 3], fin := .stop } := by decide
-example : dispatch E regsK1 0 (b "/abc") = .ok { trace := [1, 2], fin := .notFound } := by decide
-example : linear E regsK1 0 (b "/abc") = { trace := [1, 2, 3], fin := .stop } := by decide
+  [useRoot [h 1 (.setMethod 3)], lit [2] "/abc" [h 2 .stop], lit [3] "/abc" [h 3 .stop]]
+example : Known.K1reach E regsK1ok 2 (b "/abc") = false ∧ Known.K2reach E regsK1ok 2 (b "/abc") = false := by decide
+example : dispatch E regsK1ok 2 (b "/abc") = .ok { trace := [1, 3], fin := .stop } := by decide
+
+/-- **K1 witness**: an *endpoint* (not a `Use` route) turns the request into GET: PUT /new (Method(GET);
+Next), then GET /new. The numeric cursor (1) is carried into the GET tree `[GET /new]`, where it points
+past GET /new: the real dispatcher (and the model) answer 404 after handler 1; the property wants
+handler 2. -/
+def regsK1 : List (Reg Bytes) :=
+  [lit [3] "/new" [h 1 (.setMethod 0)], lit [0] "/new" [h 2 .stop]]
+
+theorem dispatch_after_override_witness_K1 :
+    ¬ (dispatch E regsK1 3 (b "/new") = .ok (linear E regsK1 3 (b "/new"))) := by decide
+
+example : Known.K1 E regsK1 3 (b "/new") = true := by decide
+example : dispatch E regsK1 3 (b "/new") = .ok { trace := [1], fin := .notFound } := by decide
+example : linear E regsK1 3 (b "/new") = { trace := [1, 2], fin := .stop } := by decide
 
 /-- **K2 witness**: GET /abc registered twice in a row (merged by `addRoute`); the first handler
 rewrites the path to /xyz. `Next` runs the merged second handler although GET /abc does not match
@@ -387,6 +439,16 @@ theorem dispatch_after_override_witness_K2 :
 example : Known.K2 E regsK2 0 (b "/abc") = true := by decide
 example : dispatch E regsK2 0 (b "/abc") = .ok { trace := [1, 2], fin := .stop } := by decide
 example : linear E regsK2 0 (b "/abc") = { trace := [1, 3], fin := .stop } := by decide
+
+/-- K2, second form (straddling route): POST /x, GET /x (Method(POST); Next), POST /x. The second
+POST /x was merged into the first one's route, in front of GET /x: after the override nothing is left
+behind the cursor in the POST tree, the property wants handler 3. -/
+def regsK2b : List (Reg Bytes) :=
+  [lit [2] "/xyz" [h 1 .stop], lit [0] "/xyz" [h 2 (.setMethod 2)], lit [2] "/xyz" [h 3 .stop]]
+
+example : Known.K2 E regsK2b 0 (b "/xyz") = true := by decide
+example : dispatch E regsK2b 0 (b "/xyz") = .ok { trace := [2], fin := .notFound } := by decide
+example : linear E regsK2b 0 (b "/xyz") = { trace := [2, 3], fin := .stop } := by decide
 
 end Ex
 end C01
